@@ -73,7 +73,7 @@ def descriptions(draw):
         return copy.deepcopy(FIG55)
     if k == 1:
         return copy.deepcopy(FIG56)
-    return draw(games.stopping_games(min_inner=2, max_inner=8, max_sinks=3))
+    return draw(games.stopping_games(min_inner=2, max_inner=8, max_sinks=3, dup_names=True))
 
 
 @st.composite
